@@ -278,6 +278,22 @@ class Explorer:
         res = I.explore(qualname, setup)
         if self.report is not None:
             self.report.absorb_stats(I)
+            # a path of an analysed function that ends in NameError / UnboundLocalError: the function cannot do what any
+            # property expects of it on that path (a name that is not bound there)
+            seen = set()
+            for p in res:
+                if p.outcome[0] == "raise" and getattr(p.outcome[1], "cls", None) in ("NameError", "UnboundLocalError"):
+                    origin = getattr(p.outcome[1], "origin", None)
+                    nm = origin[1] if isinstance(origin, tuple) and len(origin) > 1 else "?"
+                    if (qualname, nm) in seen:
+                        continue
+                    seen.add((qualname, nm))
+                    try:
+                        site = fn_label(self.prog, qualname)
+                    except Exception:  # noqa: BLE001
+                        site = qualname
+                    self.report.violation("CODE.unbound-name", site, f"name {nm}", "every name a path reads is bound on that path (a parameter, an earlier assignment, an import or a builtin)",
+                                          extracted=f"{p.outcome[1].cls}: {nm} is read before anything binds it", required="a bound name", function=site)
         if key is not None:
             self.cache[ck] = res
         return res
@@ -510,7 +526,8 @@ def agg_over_keys(t):
     if len(segs) != 1 or segs[0][0] != "each":
         return False
     _, b, fam, g, val = segs[0]
-    return fam == KEYS_D and g == PTRUE and val == ("elem", b, "key")
+    # (a guard selects some of the keys: still keys - whether the *whole* base is kept is another obligation)
+    return fam == KEYS_D and val == ("elem", b, "key")
 
 
 def lin_facts_hold(path, n, pvar=PVAR):
